@@ -486,6 +486,8 @@ def g_case(c):
         reg = f"(Some (Some ({gnat(rg['host'])}, {g_req(rg['req'])})))"
     def g_text(t, r):
         rr = "None" if r is None else f"(Some {glist(g_req(x) for x in r)})"
+        if all(32 <= ord(ch) < 127 or ch in "\t\n\r" for ch in t):      # a string literal is much cheaper for coqc to read
+            return f"(text_of_string \"{t.replace(chr(34), chr(34) * 2)}\"%string, {rr})"
         return f"(({glist(str(ord(ch)) for ch in t)})%N, {rr})"
     texts = [g_text(c["text"], a["parsed"])]
     if c.get("near") is not None:
@@ -687,7 +689,8 @@ def run(c: Check):
         oracle(c, case)
     c.samples = [dict(text=x["text"], host=x["host"], hosts=x["hosts"], groups=x["groups"], answer=x["ans"])
                  for x in cases[:3]]
-    header = ("From Coq Require Import ZArith NArith List Bool.\nFrom XV Require Import model.Launcher model.LauncherParse "
+    header = ("From Coq Require Import String.\nFrom Coq Require Import ZArith NArith List Bool.\n"
+              "From XV Require Import model.Launcher model.LauncherParse "
               "corr.LauncherCorr.\n"
               "Import ListNotations.\nOpen Scope Z_scope.\n")
     bad = c.corr_shards("corr", header, cases, g_case, "check_case")
